@@ -19,6 +19,8 @@ RULE = ("(a) method level: for every key DE:<m> of checksum.algorithms, account 
         "(b) dispatch level: for every German bank code of the registry, reference-accepted and "
         "reference-rejected account numbers of the bank's method through IBAN(.., validate_bban=True); "
         "unimplemented methods and unlisted bank codes one edit away from listed ones must accept. "
+        "(c) the same dispatch cases after IBANs of other countries carrying the same bank-identifying "
+        "key have been looked up in the same process (and in the opposite order). "
         "distinct = distinct (method, account) resp. (bank code, account) pairs.")
 
 
@@ -196,6 +198,55 @@ def dispatch_shard(args):
     return part.done()
 
 
+def foreign_first_shard(args):
+    """The verdict depends on nothing but the method and the account number - in particular not on
+    which IBANs of OTHER countries were looked at before.  One process: for German bank codes that
+    are also the bank-identifying key of another country's IBAN (listed there or not), that foreign
+    IBAN's bank / BIC / names are read first, then the German accounts are judged; then once more in
+    the opposite order."""
+    from . import c12, c14
+    _, tier = args
+    part = par.Part()
+    implemented = set(lib_methods())
+    pl = pools()
+    by_text: dict = {}
+    for (cc, key) in lookup.by_key():
+        by_text.setdefault(key, set()).add(cc)
+    shared = sorted(k for k, ccs in by_text.items() if "DE" in ccs and len(ccs) > 1)
+    per_method = [c14.bank_for_method(m) for m in sorted(implemented)]
+    codes = list(dict.fromkeys(shared + [c for c in per_method if c]))
+    hosts = [cc for cc, co in sorted(reg.countries().items()) if cc != "DE" and co.positions]
+    for code in codes:
+        m = lookup.german_method(code + "0" * 10)
+        if m in pl and m in implemented:
+            accts = pl[m][0][:2] + pl[m][1][:2]
+        else:
+            accts = ["0000000001", "0648489890"]
+        foreign = [(cc, c12.build_iban(cc, code)) for cc in hosts]
+        foreign = [(cc, t) for cc, t in foreign if t][: (4 if tier == "quick" and code not in shared else 40)]
+        for rnd in ("foreign-first", "german-first"):
+            if rnd == "german-first":
+                for a in accts:
+                    judge_dispatch(code, a, implemented)
+            for cc, t in foreign:
+                k, o = lib.outcome(lib.IBAN, t)
+                if k == "ok":
+                    for name in ("bank", "bic", "bank_name", "bank_short_name"):
+                        lib.outcome(lambda: getattr(o, name))
+                    lib.outcome(lib.IBAN, t, validate_bban=True)
+                part.stat("foreign_ibans_read_first")
+            for a in accts:
+                part.count(("foreign-first", rnd, code, a))
+                ok, sig, exp, obs = judge_dispatch(code, a, implemented)
+                if not ok:
+                    part.violation(sig + " [after IBANs of other countries carrying the same key]",
+                                   {"kind": "c07f", "bank_code": code, "account": a,
+                                    "foreign": [t for _, t in foreign], "order": rnd}, exp, obs)
+    part.stat("german_codes_probed_after_foreign_lookups", len(codes))
+    part.sample({"german_code_also_a_foreign_key": shared[:3], "foreign_ibans": [t for _, t in foreign][:3]})
+    return part.done()
+
+
 def optimised_child(tier):
     """Runs inside ``python -O`` (the method template guards its slices with ``assert``): every
     method x every base x single-digit deviations, and one listed bank per method through IBAN."""
@@ -227,7 +278,7 @@ def optimised_child(tier):
 def shard(args):
     if args[0] == "python -O":
         return par.in_interpreter(["-O"], "mc.props.c07", "optimised_child", args[1])
-    return {"m": method_shard, "p": product_shard, "d": dispatch_shard}[args[0]](args)
+    return {"m": method_shard, "p": product_shard, "d": dispatch_shard, "f": foreign_first_shard}[args[0]](args)
 
 
 def replay(case: dict) -> dict:
@@ -236,6 +287,11 @@ def replay(case: dict) -> dict:
         hit = [v for v in part["violations"] if v["case"].get("account") == case.get("account")
                and v["case"].get("method") == case.get("method")]
         return {"ok": not hit, "observed": hit[0]["observed"] if hit else None, "interpreter": "python -O"}
+    if case["kind"] == "c07f":
+        part = foreign_first_shard(("f", "quick"))
+        hit = [v for v in part["violations"] if v["case"]["bank_code"] == case["bank_code"]
+               and v["case"]["account"] == case["account"]]
+        return {"ok": not hit, "observed": hit[0]["observed"] if hit else None}
     if case["kind"] == "c07m":
         ok, sig, rv, lv = judge_method(case["method"], case["account"])
         return {"ok": ok, "signature": sig, "expected": rv, "observed": lv}
@@ -251,6 +307,7 @@ def main(tier: str) -> int:
         shards += [("p", m, pos, tier) for m, pos in bbk.SMALL_SUPPORT.items() if m in methods]
     codes = sorted({k[1] for k in lookup.by_key() if k[0] == "DE"})
     shards.append(("python -O", tier))
+    shards.append(("f", tier))
     chunk = 120
     shards += [("d", codes[i:i + chunk], tier) for i in range(0, len(codes), chunk)]
     par.run_shards(run, shard, shards)
